@@ -171,3 +171,31 @@ Definition parseISO (s : list Z) : option Z :=
       else None
   | _ => None
   end.
+
+(* ---- ToInteger (9.4) on a number given in thousandths: truncation towards zero on the field itself ---- *)
+Definition toint (x : Z) : Z := Z.quot x 1000.
+Definition tointf (l : list (option Z)) : list (option Z) := map (option_map toint) l.
+
+(* 15.9.4.3 with the year already resolved (two-digit rule applied by the caller) *)
+Definition utc_fields (yr : Z) (l : list (option Z)) : option Z :=
+  match nth_or l 1 0, nth_or l 2 1, nth_or l 3 0, nth_or l 4 0, nth_or l 5 0, nth_or l 6 0 with
+  | Some m, Some dt, Some h, Some mi, Some s, Some ms => Some (MakeDate (MakeDay yr m dt) (MakeTime h mi s ms))
+  | _, _, _, _, _, _ => None
+  end.
+(* Date.UTC / the constructor on arguments given in thousandths: every field goes through ToInteger first *)
+Definition utcq (l : list (option Z)) : option Z := utc (tointf l).
+
+(* ---- 15.9.5.28-41 with a constant local offset (LocalTZA = off ms, no daylight saving):
+   ids 10..16 are the local-time setters setMilliseconds .. setFullYear: t = LocalTime(this time value),
+   result UTC(MakeDate(..)); setFullYear on NaN composes from t = +0 (not LocalTime of anything) ---- *)
+Definition set_raw_z (off id : Z) (t : option Z) (a : list (option Z)) : option Z :=
+  if (10 <=? id) && (id <=? 16)
+  then option_map (fun r => r - off) (set_raw (id - 10) (option_map (fun t => t + off) t) a)
+  else set_raw id t a.
+Definition set_spec_z (off id : Z) (t : option Z) (a : list (option Z)) : option Z := clip (set_raw_z off id t a).
+
+(* number of declared parameters of setter id *)
+Definition arity (id : Z) : nat :=
+  let k := if 10 <=? id then id - 10 else id in
+  if k =? 1 then 2%nat else if k =? 2 then 3%nat else if k =? 3 then 4%nat
+  else if k =? 5 then 2%nat else if k =? 6 then 3%nat else 1%nat.
